@@ -41,11 +41,10 @@ char const* const fcode_names[] = {"f=callable&&", "f=callable const&", "ctor(ca
     "big.swap(big2)", "big self swap", "big=nullptr", "==nullptr"};
 static_assert(sizeof(fcode_names) / sizeof(fcode_names[0]) == F_NCODES);
 
-template <Kind K>
+template <typename T>
 struct FUN {
-    using T = lt::Tracked<K>;
-    using F = etl::inplace_function<int(int), 16>;
-    using G = etl::inplace_function<int(int), 32>;
+    using F = etl::inplace_function<int(int), 4 * sizeof(T)>; // room for 4 captures (16 bytes for the engine's Tracked)
+    using G = etl::inplace_function<int(int), 8 * sizeof(T)>; // room for 8 captures
 
     template <typename Fx>
     static auto snap(Fx const& f) -> std::vector<int>
@@ -298,11 +297,10 @@ char const* const pcode_names[] = {"p=pair(T&&,T&&)", "ctor(T const&,T const&)",
     "move-ctor+refill source", "copy-assign", "move-assign+refill source", "self copy-assign", "self move-assign", "swap(member)", "swap(free)", "self swap(member)", "self swap(free)", "make_pair", "get<I>(p)=T", "compare"};
 static_assert(sizeof(pcode_names) / sizeof(pcode_names[0]) == P_NCODES);
 
-template <Kind K>
+template <typename T>
 struct PAIR {
-    using T                  = lt::Tracked<K>;
     using V                  = etl::pair<T, T>;
-    static constexpr bool CP = copyable<K>;
+    static constexpr bool CP = std::is_copy_constructible_v<T>;
 
     static auto snap(V const& p) -> std::vector<int> { return {p.first.get(), p.second.get()}; }
     static void touch(V const& p)
@@ -537,11 +535,10 @@ char const* const tcode_names[] = {"ctor(T&&,int,T&&)", "ctor(T const&,int const
     "assignment (only if the tree declares one)"};
 static_assert(sizeof(tcode_names) / sizeof(tcode_names[0]) == T_NCODES);
 
-template <Kind K>
+template <typename T>
 struct TUP {
-    using T                  = lt::Tracked<K>;
     using V                  = etl::tuple<T, int, T>;
-    static constexpr bool CP = copyable<K>;
+    static constexpr bool CP = std::is_copy_constructible_v<T>;
 
     static auto snap(V const& t) -> std::vector<int> { return {etl::get<0>(t).get(), etl::get<1>(t), etl::get<2>(t).get()}; }
     static void touch(V const& t) { (void)snap(t); }
@@ -685,14 +682,24 @@ struct TUP {
 void init_configs()
 {
     configs() = {
-        Config{"inplace_function<int(int),16|32>/TCM captures", &FUN<Kind::copy_move>::run, F_NCODES, fcode_names, true},
-        Config{"inplace_function<int(int),16|32>/TCO captures", &FUN<Kind::copy_only>::run, F_NCODES, fcode_names, true},
-        Config{"pair<TCM,TCM>", &PAIR<Kind::copy_move>::run, P_NCODES, pcode_names, true},
-        Config{"pair<TMO,TMO>", &PAIR<Kind::move_only>::run, P_NCODES, pcode_names, true},
-        Config{"pair<TCO,TCO>", &PAIR<Kind::copy_only>::run, P_NCODES, pcode_names, true},
-        Config{"tuple<TCM,int,TCM>", &TUP<Kind::copy_move>::run, T_NCODES, tcode_names, true},
-        Config{"tuple<TMO,int,TMO>", &TUP<Kind::move_only>::run, T_NCODES, tcode_names, true},
-        Config{"tuple<TCO,int,TCO>", &TUP<Kind::copy_only>::run, T_NCODES, tcode_names, true},
+        Config{"inplace_function<int(int),16|32>/TCM captures", &FUN<lt::TCM>::run, F_NCODES, fcode_names, true},
+        Config{"inplace_function<int(int),16|32>/TCO captures", &FUN<lt::TCO>::run, F_NCODES, fcode_names, true},
+        Config{"pair<TCM,TCM>", &PAIR<lt::TCM>::run, P_NCODES, pcode_names, true},
+        Config{"pair<TMO,TMO>", &PAIR<lt::TMO>::run, P_NCODES, pcode_names, true},
+        Config{"pair<TCO,TCO>", &PAIR<lt::TCO>::run, P_NCODES, pcode_names, true},
+        Config{"tuple<TCM,int,TCM>", &TUP<lt::TCM>::run, T_NCODES, tcode_names, true},
+        Config{"tuple<TMO,int,TMO>", &TUP<lt::TMO>::run, T_NCODES, tcode_names, true},
+        Config{"tuple<TCO,int,TCO>", &TUP<lt::TCO>::run, T_NCODES, tcode_names, true},
+        // shapes (see C03_shared.cpp): NC copy may throw, NM move may throw, AO overloaded unary operator&
+        Config{"inplace_function<int(int),16|32>/NC captures", &FUN<NC<0>>::run, F_NCODES, fcode_names, false},
+        Config{"inplace_function<int(int),16|32>/NM captures", &FUN<NM<0>>::run, F_NCODES, fcode_names, false},
+        Config{"inplace_function<int(int),16|32>/AO captures", &FUN<AO<0>>::run, F_NCODES, fcode_names, false},
+        Config{"pair<NC,NC>", &PAIR<NC<0>>::run, P_NCODES, pcode_names, false},
+        Config{"pair<NM,NM>", &PAIR<NM<0>>::run, P_NCODES, pcode_names, false},
+        Config{"pair<AO,AO>", &PAIR<AO<0>>::run, P_NCODES, pcode_names, false},
+        Config{"tuple<NC,int,NC>", &TUP<NC<0>>::run, T_NCODES, tcode_names, false},
+        Config{"tuple<NM,int,NM>", &TUP<NM<0>>::run, T_NCODES, tcode_names, false},
+        Config{"tuple<AO,int,AO>", &TUP<AO<0>>::run, T_NCODES, tcode_names, false},
     };
 }
 
